@@ -1003,7 +1003,10 @@ def check_splice_order(prog, rep):
                             desc = isinstance(it, ast.Call) and (
                                 call_name(it) == 'reversed' or (call_name(it) == 'sorted' and any(
                                     k.arg == 'reverse' and isinstance(k.value, ast.Constant) and
-                                    k.value.value is True for k in it.keywords)))
+                                    k.value.value is True for k in it.keywords))) or (
+                                isinstance(it, ast.Subscript) and isinstance(it.slice, ast.Slice)
+                                and it.slice.lower is None and it.slice.upper is None and
+                                it.slice.step is not None and unparse(it.slice.step) == '-1')
                             rep.instance('SPLICE-descending', {'function': q, 'splice': unparse(t),
                                                                'iterable': unparse(it)[:50],
                                                                'descending': desc})
